@@ -23,7 +23,7 @@ RULE = (
     "TagInts(Tag[int,V]); dataclass Info, a registered collection class adding Top/N/Rest): every class gets 2-4 methods whose "
     "return annotation is drawn from a type grammar (scalars, classes, generic instantiations, own type variables, "
     "iterables of these, or no annotation). Expressions: method chains, Select/SelectMany/Where/First/Count/len/[0] on "
-    "iterables, comparisons, and/or, + - * / // % over int / float / bool operands (bool counts as int: True + True == 2), dict literals and dataclass fields by attribute and key, depth <=4; 1-3 stream "
+    "iterables, comparisons, and/or (also over operands that are not bool), + - * / // % over int / float / bool operands (bool counts as int: True + True == 2), dict literals and dataclass fields by attribute and key, depth <=4; 1-3 stream "
     "stages. Expected type computed by the generator's own substitution of type variables along declared bases. "
     "Non-trivial = expected type is not Any and (>=2 typed steps or a generic/inheritance edge crossed). Distinct by model + query."
 )
@@ -306,6 +306,11 @@ def _bool(draw, model, env, depth):
         b, _ = draw(_num(model, env, 0))
         return ["cmp", draw(st.sampled_from([">", "<", "==", "!=", ">=", "<="])), a, b]
     if c <= 4:
+        if draw(st.integers(0, 3)) == 0:
+            # and / or over operands that are not bool themselves (two ints, two floats, whatever): the statement says and/or give bool
+            a, ta = draw(_num(model, env, depth - 1))
+            b, tb = draw(_num(model, env, depth - 1)) if draw(st.booleans()) else draw(_expr(model, env, max(depth - 1, 0)))
+            return ["bool", draw(st.sampled_from(["and", "or"])), a, b]
         return ["bool", draw(st.sampled_from(["and", "or"])), draw(_bool(model, env, depth - 1)), draw(_bool(model, env, depth - 1))]
     e, t = draw(_expr(model, env, depth - 1))
     if t == ["bool"]:
